@@ -359,7 +359,8 @@ func hookKey(c resSpec) string {
 }
 
 // The scripted decorator hook reads what to do from the object's spec:
-//   spec.setLabels / spec.setAnnotations : maps (null values delete), spec.setStatus, spec.attach (count), spec.image
+//
+//	spec.setLabels / spec.setAnnotations : maps (null values delete), spec.setStatus, spec.attach (count), spec.image
 func scriptedHook(cfg dcfg) func(name string, req map[string]interface{}) vs.HookAnswer {
 	return func(name string, req map[string]interface{}) vs.HookAnswer {
 		obj := sub(req, "object")
